@@ -114,12 +114,15 @@ def run(ctx: Ctx):
     for k in range(n_inputs):
         inp = pipecases.make_input(rng, n_refs=2, n_qry=11, kinds=["samestart", "flankdup", "samestart", "mirror", "flankdup", "samestart",
                                                     "inversion", "inversion", "tiny", "tiny", "tiny"],
-                                   ref_labels=(330, 360), decimals=False, lattice=100, short_contigs=1)
+                                   ref_labels=(330, 360), decimals=False, lattice=100, short_contigs=1, sparse_ref=True)
+        # sparse_ref: a contig labelled on its first part only + a molecule too long for that part (FIRST task of the run)
+        # + two molecules of that part as later tasks: a verdict about a reference must not outlive the task it was made in
         # the molecule of the short contig becomes the neighbour of the longest molecule in the task list (the reader
         # returns molecules in ascending id order): ids doubled, the contig's molecule gets the odd id after the first
         for q in inp["qrys"]:
             q["id"] *= 2
-        sc = inp["qrys"].pop()
+        sc = next(q for q in inp["qrys"] if q["kind"] == "shortcontig")
+        inp["qrys"].remove(sc)
         sc["id"] = inp["qrys"][0]["id"] + 1
         inp["qrys"].insert(1, sc)
         wd = os.path.join(ctx.workdir, f"c09-{k}")
